@@ -142,12 +142,9 @@ func (c *svScn) step(st string) {
 		c.nsv++
 		tag := fmt.Sprintf("s%d", c.nsv)
 		s.Call(s.Thread(), "survey", c.cname(i), []interface{}{"tag", tag}, func() []interface{} {
-			m := mangos.NewMessage(16)
+			m := appNew(s, 16)
 			m.Body = append(m.Body, tag...)
-			err := fn(m)
-			if err != nil {
-				m.Free()
-			}
+			err := appSend(s, m, fn)
 			return []interface{}{"r", err}
 		})
 	case "recv":
@@ -161,9 +158,10 @@ func (c *svScn) step(st string) {
 			if err != nil {
 				return []interface{}{"r", err}
 			}
+			appGot(s, m)
 			tag := string(m.Body)
 			hl := len(m.Header)
-			m.Free()
+			appFree(s, m)
 			return []interface{}{"r", "ok", "tag", tag, "hl", hl}
 		})
 	case "resp":
@@ -231,6 +229,7 @@ func (c *svScn) step(st string) {
 
 func runSurveyor(t *testing.T, cfg svCfg) sim.Result {
 	return sim.Run(t, 10*time.Second, func(s *sim.S) {
+		defer withLedger(s.Rec)()
 		c := &svScn{s: s, cfg: cfg, pipes: map[string]*vt.Pipe{}, id2p: map[uint32]string{}}
 		s.Net.Decode = c.decode
 		c.proto = surveyor.NewProtocol()
